@@ -284,13 +284,21 @@ def array_contract_path(
     )
 
     if cache and can_hash_optimize(optimize.__class__):
-        key = hash_contraction(inputs, output, size_dict, optimize)
         try:
-            path = _PATH_CACHE[key]
-        except KeyError:
-            path = _PATH_CACHE[key] = find_path(
-                inputs, output, size_dict, optimize
-            )
+            key = hash_contraction(inputs, output, size_dict, optimize)
+        except TypeError:
+            # unhashable inputs, e.g. lists when ``canonicalize=False``
+            key = None
+
+        if key is None:
+            path = find_path(inputs, output, size_dict, optimize)
+        else:
+            try:
+                path = _PATH_CACHE[key]
+            except KeyError:
+                path = _PATH_CACHE[key] = find_path(
+                    inputs, output, size_dict, optimize
+                )
     else:
         path = find_path(inputs, output, size_dict, optimize)
 
